@@ -106,7 +106,11 @@ func (r *Run) loadKnown() {
 func (r *Run) Rule(s string) { r.mu.Lock(); r.rule = s; r.mu.Unlock() }
 
 // Assume records a trusted-base / assumption line.
-func (r *Run) Assume(s ...string) { r.mu.Lock(); r.assumptions = append(r.assumptions, s...); r.mu.Unlock() }
+func (r *Run) Assume(s ...string) {
+	r.mu.Lock()
+	r.assumptions = append(r.assumptions, s...)
+	r.mu.Unlock()
+}
 
 // Bound records a human-readable bound that this run completed.
 func (r *Run) Bound(format string, a ...any) {
